@@ -58,6 +58,7 @@ def cases(tier, seed):
     yield dict(kind='layouts', tier=tier)
     yield dict(kind='array', tier=tier)
     yield dict(kind='partial', tier=tier)
+    yield dict(kind='nonfinite', tier=tier)
     for sub in DEGENERATE:
         yield dict(kind='degenerate', sub=sub, tier=tier)
 
@@ -251,6 +252,39 @@ def run_case(c):
             if not np.array_equal(arr, base):
                 res.violation('array:input-changed', 'to_mef changed its input array', dict(c))
             res.sample({'container': 'plain ndarray'})
+        elif c['kind'] == 'nonfinite':
+            # curves that are not finite on some events (logarithm of zero / of a negative value): the channel holds exactly what its
+            # curve returns, NaN and inf included
+            arr = np.array([[0.0, -3.0, 5.0, 2.0], [4.0, 0.0, 7.0, 9.0], [-1.0, 6.0, 0.0, 1.0], [8.0, 2.0, 3.0, 0.0]])
+            lay = dict(datatype='D', bits=[64] * 4, ranges=[1024] * 4, events=[[fcsgen.float_bits(x, 'D') for x in r] for r in arr.tolist()], byteord='1,2,3,4')
+            pn = os.path.join(scratch(), 'c06n.fcs')
+            buf, _ = fcsgen.build(lay)
+            with open(pn, 'wb') as f:
+                f.write(buf)
+            import FlowCal as _F
+            dn = _F.io.FCSData(pn)
+            fns = [np.log, lambda x: 1.0 / x, np.sqrt, lambda x: np.log10(x) * 2.0]
+            for tgt, label in ((dn, 'sample'), (arr.copy(), 'array')):
+                for S in ([0], [1, 0], [2, 3, 1], [3, 2, 1, 0]):
+                    scl = [fns[j] for j in S]
+                    for req in (None, [S[-1]], list(reversed(S))):
+                        rc = S if req is None else req
+                        what = 'to_mef(%s with zeros and negative events, channels=%r, curves log / 1/x / sqrt / log10 for %r)' % (label, req, S)
+                        try:
+                            with np.errstate(all='ignore'):
+                                t = np.asarray(to_mef(tgt, req, scl, list(S)))
+                                exp = arr.copy()
+                                for j in rc:
+                                    exp[:, j] = fns[j](arr[:, j])
+                        except Exception as e:
+                            res.violation('nonfinite:raises:%s' % type(e).__name__, '%s raised %s: %s' % (what, type(e).__name__, e), dict(c))
+                            continue
+                        if t.tobytes() != exp.tobytes() and not np.array_equal(t, exp, equal_nan=True):
+                            bad = [j for j in range(4) if not np.array_equal(t[:, j], exp[:, j], equal_nan=True)]
+                            res.violation('nonfinite:values', '%s: channel %d is %s, its curve gives %s' % (what, bad[0], t[:, bad[0]].tolist(), exp[:, bad[0]].tolist()), dict(c))
+                        else:
+                            res.ok('nonfinite', True)
+            res.sample({'curves': 'log, 1/x, sqrt, 2 log10', 'events': 'zeros and negative values in every channel'})
         elif c['kind'] == 'degenerate':
             # conversion and refusal do not depend on how many events the sample holds
             sub = c['sub']
